@@ -13,6 +13,7 @@ import (
 	"github.com/brimdata/super/pkg/field"
 	"github.com/brimdata/super/runtime/sam/expr"
 	"github.com/brimdata/super/runtime/sam/expr/function"
+	"github.com/brimdata/super/zbuf"
 	"github.com/brimdata/super/zcode"
 	"github.com/brimdata/super/zio"
 
@@ -103,12 +104,33 @@ type orderRel struct {
 	u       *universe
 	cmp     map[string][][]int
 	fn      map[string][][]int // "m": compare(a,b,true), "n": compare(a,b,false)
+	lake    map[string][][]int // "a"/"d": zbuf.NewComparatorNullsMax over pool key k asc/desc
 	samples []bulkSample
 }
 
 func recordRelation(u *universe) *orderRel {
 	n := len(u.vals)
-	r := &orderRel{u: u, cmp: map[string][][]int{}, fn: map[string][][]int{}}
+	r := &orderRel{u: u, cmp: map[string][][]int{}, fn: map[string][][]int{}, lake: map[string][][]int{}}
+	// the lake's comparators over records {k: value}
+	recs := make([]zed.Value, n)
+	for i, v := range u.vals {
+		recs[i] = rec(u.zctx, []string{"k"}, []zed.Value{v.val})
+	}
+	for _, d := range []string{"a", "d"} {
+		o := order.Asc
+		if d == "d" {
+			o = order.Desc
+		}
+		cmp := zbuf.NewComparatorNullsMax(u.zctx, order.SortKeys{order.NewSortKey(o, field.Path{"k"})})
+		m := make([][]int, n)
+		for i := range m {
+			m[i] = make([]int, n)
+			for j := range m[i] {
+				m[i][j] = sign(cmp.Compare(recs[i], recs[j]))
+			}
+		}
+		r.lake[d] = m
+	}
 	for _, cfg := range cfgNames {
 		cmp := realCmp(cfg)
 		m := make([][]int, n)
@@ -339,6 +361,7 @@ func (r *orderRel) dataFiles() map[string][]byte {
 		"od_am.json": js(r.cmp["am"]), "od_an.json": js(r.cmp["an"]),
 		"od_dm.json": js(r.cmp["dm"]), "od_dn.json": js(r.cmp["dn"]),
 		"od_fnm.json": js(r.fn["m"]), "od_fnn.json": js(r.fn["n"]),
+		"od_lakea.json": js(r.lake["a"]), "od_laked.json": js(r.lake["d"]),
 		"od_samples.json": js(samples),
 	}
 }
